@@ -84,6 +84,17 @@ def build_pool(tier):
         for s in ("3 mth ago", "last mth", "la semana próxima", "il y a 3 hr", "in 2 mth"):
             P.append({"api": "parse", "s": s, "lang": lang, "si": 0, "nobase": False})
             P.append({"api": "parse", "s": s, "lang": lang, "si": 4, "nobase": False})
+    # custom formats and language+region selections
+    for s, fm in (("12.05.2015", ["%d.%m.%Y"]), ("05/12/2015", ["%m/%d/%Y"]), ("05/12/2015", ["%d/%m/%Y"]), ("May 2015", ["%B %Y"]),
+                  ("2015", ["%Y"]), ("12 mai 2015", ["%d %B %Y"]), ("10:45", ["%H:%M"]), ("2015 132", ["%Y %j"])):
+        for si in (0, 1, 27, 18):
+            for lang in ("en", "fr"):
+                P.append({"api": "ddp", "s": s, "lang": lang, "si": si, "nobase": False, "formats": fm})
+                P.append({"api": "parse", "s": s, "lang": lang, "si": si, "nobase": False, "formats": fm})
+    for langs, region in ((["en"], "GB"), (["en"], "US"), (["fr", "en"], "CA"), (["fr", "en"], "BE"), (["es"], "MX"), (["pt"], "BR")):
+        for s in ("02/03/2015", "12 mai 2015", "3 mth ago", "yesterday"):
+            P.append({"api": "ddp", "s": s, "lang": None, "langs": langs, "region": region, "si": 0, "nobase": False})
+            P.append({"api": "ddp", "s": s, "lang": None, "langs": langs, "region": region, "si": 14, "nobase": False})
     for l, s in BAD_LANG:
         P.append({"api": "parse", "s": s, "lang": l, "si": 0, "nobase": False})
         P.append({"api": "ddp", "s": s, "lang": l, "si": 1, "nobase": False})
@@ -117,7 +128,7 @@ def settings_of(call):
 
 
 def inst_key(call):
-    return "%s|%s|%s|%s|%s|%s" % (call.get("locales"), call.get("langs"), call.get("ugo"), call["lang"], call.get("si", repr(sorted((call.get("st") or {}).items()))), call["nobase"])
+    return "%s|%s|%s|%s|%s|%s|%s" % (call.get("region"), call.get("locales"), call.get("langs"), call.get("ugo"), call["lang"], call.get("si", repr(sorted((call.get("st") or {}).items()))), call["nobase"])
 
 
 # ------------------------------------------------------------------ outcomes
@@ -143,13 +154,16 @@ def execute(call, insts=None, guard=None):
         extra["use_given_order"] = True
     if call.get("locales"):
         extra["locales"] = list(call["locales"])
+    if call.get("region"):
+        extra["region"] = call["region"]
+    fm = list(call["formats"]) if call.get("formats") else None
     st0, langs0 = copy.deepcopy(st), copy.deepcopy(langs)
     now = datetime.now(timezone.utc).replace(tzinfo=None) if call["nobase"] else None
     try:
         if api == "parse":
             import dateparser
 
-            r = dateparser.parse(s, languages=langs, settings=st)
+            r = dateparser.parse(s, date_formats=fm, languages=langs, settings=st)
             out = ["ok", dt_out(r, now)]
         elif api in ("ddp", "inst"):
             from dateparser.date import DateDataParser
@@ -161,7 +175,7 @@ def execute(call, insts=None, guard=None):
                 p = insts[key]
             else:
                 p = DateDataParser(languages=langs, settings=st, **extra)
-            d = p.get_date_data(s)
+            d = p.get_date_data(s, fm)
             out = ["ok", [dt_out(d["date_obj"], now), d["period"], d["locale"]]]
         elif api == "search":
             from dateparser.search import search_dates
